@@ -53,6 +53,9 @@ class Contract:
         self.impl = kw.pop("impl", None)  # python stand-in executed by callers (assumed contract given as code)
         self.inline = kw.pop("inline", False)  # callers execute the body; on_inline(args, result) records ghosts
         self.on_inline = kw.pop("on_inline", None)
+        # callee name -> lambda(args of the call, ghost of this contract) -> dict: the instance of the callee's
+        # (universally quantified) ghost constants this function's proof uses; default: an arbitrary fresh instance
+        self.instantiate = kw.pop("instantiate", {})
         if kw:
             raise TypeError(f"unknown contract fields {list(kw)}")
 
@@ -424,14 +427,19 @@ def call_contract(con: Contract, real, args, kwargs):
     tag = f"call.{con.name}#{k}"
     c.data.setdefault("callees", set()).add(con.qual)
     avail = dict(bound)
+    if con.ghost:
+        # ghost constants are universally quantified: the caller gets the instance it names, else an arbitrary one
+        g = {n: sp.fresh(c.fresh_name(f"{tag}.ghost.{n}")) for n, sp in con.ghost.items()}
+        act = c.data.get("contract")
+        inst = getattr(act, "instantiate", {}).get(con.name) if act is not None else None
+        if inst is not None:
+            g.update(inst(Namespace(bound), c.data.get("ghost")))
+        avail["ghost"] = Namespace(g)
     if con.requires is not None:
         c.prove(f"{tag}.pre", call_with(con.requires, avail), kind="pre", callee=con.qual)
     old = Namespace({n: snapshot(v) for n, v in bound.items()})
     avail["old"] = old
     avail["trace"] = None  # the callee's own effects are not visible to its caller
-    if con.ghost:
-        # ghost constants are universally quantified: the caller gets one arbitrary instance
-        avail["ghost"] = Namespace({n: sp.fresh(c.fresh_name(f"{tag}.ghost.{n}")) for n, sp in con.ghost.items()})
     for exc, cond in con.raises.items():
         cv = call_with(cond, avail)
         if cv:
